@@ -1,6 +1,6 @@
 (* C20 — stand-alone array helpers agree with their definitions.  Statements only. *)
 From Coq Require Import List ZArith Bool.
-From GL Require Import Lib.Arr Lib.Blocks Model.Dom Model.Scalar Model.Nanops Spec.Defs Spec.Exec Proofs.NanopsProofs Proofs.NanopsExt Model.Helpers Proofs.HelperProofs Proofs.MonoProofs
+From GL Require Import Lib.Arr Lib.Blocks Model.Dom Model.Scalar Model.Nanops Spec.Defs Spec.Exec Proofs.NanopsProofs Proofs.NanopsExt Model.Helpers Proofs.HelperProofs Proofs.MonoProofs Model.Moments Proofs.MomentsProofs
   Proofs.GenTie Gen.ReductionOpsGen.
 Import ListNotations.
 Open Scope Z_scope.
@@ -93,3 +93,30 @@ Example C20_example :
   nb_dot (zops false 0) Z.mul [[1; 2]; [3; 4]] [10; 100] 2 = [310; 420] /\
   mask_labels 3 (row_mask [true; false; true]) = [0; 2]%nat /\ bin_code [5; 10; 15] 10 = 1 /\ bin_code [5; 10; 15] 11 = 2.
 Proof. repeat split; vm_compute; reflexivity. Qed.
+
+(* 5. nanmean / nanvar / nanstd: mean = sum / n, and the variance is formed in two passes (squared deviations from
+      the mean), as NumPy does.  In exact arithmetic that IS the textbook variance; unlike the one-pass formula it
+      replaced it cannot see the offset of the data, and it is a sum of squares - never negative, so nanstd is never
+      the root of a negative number.  (Rounding: each pass is a plain sum, C20's thread-count theorems apply.) *)
+From Coq Require Import QArith.
+Theorem C20_two_pass_is_the_variance ddof l : l <> [] -> (var_two_pass ddof l == var_one_pass ddof l)%Q.
+Proof. exact (two_pass_is_one_pass ddof l). Qed.
+Print Assumptions C20_two_pass_is_the_variance.
+
+Theorem C20_variance_ignores_the_offset ddof c l : l <> [] ->
+  (var_two_pass ddof (map (Qplus c) l) == var_two_pass ddof l)%Q.
+Proof. exact (two_pass_shift_invariant ddof c l). Qed.
+Print Assumptions C20_variance_ignores_the_offset.
+
+Theorem C20_variance_nonneg ddof l : (inject_Z ddof < qlen l)%Q -> (0 <= var_two_pass ddof l)%Q.
+Proof. exact (two_pass_nonneg ddof l). Qed.
+Print Assumptions C20_variance_nonneg.
+
+(* Tie B: nanmean / nanvar / nanstd (and mean_from_sum_count) read, statement by statement, as the model assumes *)
+Theorem C20_moments_are_the_source's : Gen.TablesGen.gen_moment_formulas = moment_formulas.
+Proof. exact tie_moment_formulas. Qed.
+Print Assumptions C20_moments_are_the_source's.
+
+Example C20_moments_example :
+  (var_two_pass 0 [100000001#1; 100000002#1; 100000003#1] == 2 # 3)%Q /\ (var_two_pass 1 [1#1; 2#1; 4#1] == 7 # 3)%Q.
+Proof. split; vm_compute; reflexivity. Qed.
